@@ -240,6 +240,21 @@ public:
   static Value parseLiteral(const std::string& text);
   static Value parseInteger(const std::string& text, int base = 10);
   static Value parseNumeric(const std::string& text);
+
+  /**
+   * Convert decimal to integer, truncating toward zero. A value that has no
+   * integer representation (NaN, infinity, magnitude of 2^63 or more) throws
+   * OUT_OF_RANGE, as the function int() does. When saturate is true, only NaN
+   * throws and any other value gives the nearest bound of integer.
+   */
+  static Integer toInteger(Numeric d, bool saturate = false)
+  {
+    if (d >= -9223372036854775808.0 && d < 9223372036854775808.0)
+      return Integer(d);
+    if (saturate && d == d)
+      return (d < 0.0 ? INT64_MIN : INT64_MAX);
+    throw RuntimeError(EXC_RT_OUT_OF_RANGE);
+  }
 };
 
 }
